@@ -1,3 +1,4 @@
+import XPathV.Generated.ExtraFacts
 import XPathV.Model.Api
 import XPathV.Lemmas.Facts
 /-!
@@ -63,5 +64,8 @@ theorem asBool_spec (v : Spec.Value F) :
     asBoolM (F := F) (match v with | .nodes l => .nodes l | .bool b => .bool b | .num x => .num x | .str s => .str s)
       = .ok (Spec.toBool v) := by
   cases v <;> simp [asBoolM, Spec.toBool]
+
+/-- T0: the float arm of `asBool` is "non-zero and not NaN" -/
+theorem asBool_float_arm_ok : Generated.asBoolFloatSrc = "returnv!=0&&!math.IsNaN(v)" := rfl
 
 end XPathV.Theorems.C07
